@@ -174,12 +174,18 @@ class Pipeline:
         self._profile = profile
         self._default_resources: Resources | None = Resources.maybe_from_dict(default_resources)  # type: ignore[assignment]
         self.validate_type_annotations = validate_type_annotations
+        # Validate once all functions are known: the listing order must not matter
+        # (e.g., a parameter only is a root argument if no listed function produces it).
+        self._validate_on_add = False
         for f in functions:
             if isinstance(f, tuple):
                 f, mapspec = f  # noqa: PLW2901
             else:
                 mapspec = None
             self.add(f, mapspec=mapspec)
+        self._validate_on_add = True
+        if self.functions:
+            self._validate()
         self._cache_type = cache_type
         self._cache_kwargs = cache_kwargs
         if cache_type is None and any(f.cache for f in self.functions):
@@ -259,7 +265,8 @@ class Pipeline:
             f.debug = self.debug
 
         self._clear_internal_cache()  # reset cache
-        self._validate()
+        if self._validate_on_add:
+            self._validate()
         return f
 
     def drop(self, *, f: PipeFunc | None = None, output_name: OUTPUT_TYPE | None = None) -> None:
